@@ -38,6 +38,23 @@ Proof.
       * eexists. rewrite in_app_iff. split. right; left; reflexivity. cbn. auto.
 Qed.
 
+(* reporting unused imports changes the unused list only *)
+Lemma report_unused_shape0 : forall d s, exists u, report_unused_of s d = with_unused s u.
+Proof.
+  induction d as [|[k v] d IH]; intro s; unfold report_unused_of in *; cbn [fold_left snd].
+  - exists (unused s). destruct s; reflexivity.
+  - destruct v as [|c|cs]; try apply IH.
+    destruct (c_used (checker_at s c)). apply IH.
+    destruct (IH (with_unused s (unused s ++ [(c_line (checker_at s c), c_imp (checker_at s c))]))) as (u & E).
+    exists u. rewrite E. reflexivity.
+Qed.
+Lemma reports_shape : forall ds s, exists u, fold_left report_unused_of ds s = with_unused s u.
+Proof.
+  induction ds as [|d ds IH]; intro s; cbn [fold_left]. exists (unused s). destruct s; reflexivity.
+  destruct (report_unused_shape0 d s) as (u1 & E1). rewrite E1. destruct (IH (with_unused s u1)) as (u2 & E2).
+  exists u2. rewrite E2. reflexivity.
+Qed.
+
 (* ---------- symbol_needs_import on scopes that hold no use-checker ---------- *)
 Definition allplain (s : st) : Prop := forall i k e, dict_get (scope_dict s i) k = Some e -> e = Plain.
 Definition rootclosed (d : dict) : Prop := forall r q, dict_get d (r :: q) <> None -> dict_get d [r] <> None.
@@ -916,7 +933,8 @@ Proof.
   destruct (block_sim p HF Hp stk s0 _ HR) as (M' & rds & E & HR' & HMC).
   unfold pysem. rewrite E. cbn [snd].
   assert (Hsc : missing (scan_node false p stk s0) = missing (vblock false p stk s0)).
-  { unfold scan_node, finish_deferred. destruct HR' as [(_ & _ & _ & _ & _ & Hd) _]. rewrite Hd. reflexivity. }
+  { unfold scan_node, finish_deferred. destruct HR' as [(_ & _ & _ & _ & _ & Hd) _]. rewrite Hd. cbn [fold_left].
+    destruct (reports_shape (pending_dicts (vblock false p stk s0) (top stk)) (vblock false p stk s0)) as (u & E0). rewrite E0. reflexivity. }
   rewrite Hsc in Hiff. specialize (HMC l n). rewrite Hm in HMC.
   split.
   - intros (a & Ha). apply Hiff in Ha. destruct (proj1 HMC (ex_intro _ a Ha)) as [(a' & m & [] & _)|H]. exact H.
